@@ -22,4 +22,5 @@ for d in sorted(glob.glob(os.path.join(V, "seeded", "*"))):
                                                    needs.replace("|", "/").replace("\n", " "), caught.replace("|", "/") or "(not yet run)"))
 body = body.replace("@@SEEDED_TABLE@@", "\n".join(rows))
 body = body.replace("@@STATUS_NOTE@@", P("design_status.md").strip())
+body = body.replace("@@C17_NOTE@@", P("design_c17.md").strip())
 open(os.path.join(V, "DESIGN.md"), "w").write(P("design_head.md") + body + "\n" + P("design_appendix.md"))
